@@ -15,7 +15,9 @@ type c10X struct {
 	Pre      int // 0 greeted, 1 authenticated, 2 mid-transaction, 3 mid-BDAT
 	Inject   int // 0 absent, 1 same segment as STARTTLS, 2 later segment before the ClientHello
 	AuthBE   bool
-	TLSBdat  bool // a chunked message is sent inside TLS under a size limit
+	TLSBdat  bool  // a chunked message is sent inside TLS under a size limit
+	FailedHS bool  // the handshake after the 220 fails (no ClientHello but a line of text): the connection goes on in plaintext
+	FailIdx  []int // step indexes after the failed handshake: EHLO, QUIT
 	StartIdx int
 	EhloPre  int
 	Tail     []string // expectation per in-TLS step: "5", "250", "221", "!503", "ehlo"
@@ -71,6 +73,24 @@ func genC10(t *Tape, tier string) *Scenario {
 		}
 	}
 	x.StartIdx = len(steps)
+	if x.TLSMode == tlsStart && x.Inject == 0 && t.Chance(1, 6) {
+		// STARTTLS is accepted but what follows is no handshake: the connection stays a
+		// plaintext connection in every respect (no TLS state for the backend, STARTTLS
+		// still on offer). The line is sent as a plain step so that the driver does not
+		// start a handshake of its own.
+		x.FailedHS = true
+		steps = append(steps, Step{Kind: kGarbage, Data: []byte("STARTTLS\r\n"), Wait: 1},
+			Step{Kind: kGarbage, Data: []byte("this is no TLS ClientHello at all\r\n"), Wait: 1})
+		x.FailIdx = []int{len(steps), len(steps) + 1}
+		steps = append(steps, Step{Kind: kHelo, Data: line("EHLO still-plain.example"), Wait: 1},
+			Step{Kind: kQuit, Data: []byte("QUIT\r\n"), Wait: 1})
+		sc.BE.Conns = []ConnBackendPlan{cp}
+		cs := ConnScript{Lat: drawLat(t), LatBack: drawLat(t), Steps: steps}
+		cs.defaults()
+		sc.Conns = []ConnScript{cs}
+		sc.Strata = []string{fmt.Sprintf("server/failed-handshake/%s", c10Pre[x.Pre])}
+		return sc
+	}
 	st := Step{Kind: kStartTLS, Data: []byte("STARTTLS\r\n"), Wait: 1}
 	if x.TLSMode == tlsStart && x.Inject != 0 {
 		st.Wait = 0
@@ -206,6 +226,21 @@ func checkC10(sc *Scenario, h *History) []Violation {
 		if adv := hasCap(r, "STARTTLS"); adv != (x.TLSMode == tlsStart) {
 			v("C10.advertised", "EHLO before TLS (TLS mode %d) advertised STARTTLS=%v", x.TLSMode, adv)
 		}
+	}
+	if x.FailedHS {
+		if sr := replyOf[x.StartIdx]; sr == nil || sr.Code != 220 {
+			v("C10.accepted", "STARTTLS on a TLS-capable plaintext connection was answered %v", sr)
+			return out
+		}
+		if r := replyOf[x.FailIdx[0]]; r != nil && r.Code == 250 && !hasCap(r, "STARTTLS") {
+			v("C10.failed-handshake", "after a failed handshake the connection is still plaintext, but EHLO no longer offers STARTTLS")
+		}
+		for _, e := range h.Events {
+			if e.Kind == "NewSession" && e.TLS {
+				v("C10.failed-handshake", "after a failed handshake a session was created that sees a TLS state on a plaintext connection")
+			}
+		}
+		return out
 	}
 	startIdx := x.StartIdx
 	if x.TLSMode == tlsStart && x.Inject != 0 {
@@ -431,13 +466,17 @@ func classifyC10(sc *Scenario, h *History, st *Stats) string {
 	if ch.HandshakeErr != "" && x.Inject == 2 {
 		st.Probes["injected_plaintext_later_segment_breaks_handshake"]++
 	}
+	if x.FailedHS {
+		st.Faults["handshake_fails_connection_goes_on_in_plaintext"]++
+		return fmt.Sprintf("server|failed-handshake|%d|%v", x.Pre, x.AuthBE)
+	}
 	return fmt.Sprintf("server|%d|%d|%d|%v|%v", x.TLSMode, x.Pre, x.Inject, x.AuthBE, x.Tail)
 }
 
 func init() {
 	register(&Property{
 		ID: "C10", Level: "exploration",
-		Rule:     "server half: raw driver + crypto/tls client against the real server: pre-histories {greeted, authenticated, mid-transaction, mid-BDAT with a parked delivery} x injected plaintext {absent, in the STARTTLS segment, in a later segment before the ClientHello} x TLS {available, not configured, already active}, then a drawn tail of in-TLS commands (MAIL before EHLO, RCPT, EHLO, AUTH, MAIL, NOOP, QUIT); client half: real client created by NewClientStartTLS, DialStartTLS (dial hook) or the package-level SendMail (dial hook) against a stub server with behaviours {honest, STARTTLS not advertised, 454, 220 then garbage, 220 then cut, 220 with an injected reply in the same segment, ... in a later segment} and different capability lists before and after TLS. All products are swept systematically; distinct by the stratum tuple.",
+		Rule:     "server half: raw driver + crypto/tls client against the real server: pre-histories {greeted, authenticated, mid-transaction, mid-BDAT with a parked delivery} x injected plaintext {absent, in the STARTTLS segment, in a later segment before the ClientHello} x TLS {available, not configured, already active}, then a drawn tail of in-TLS commands (MAIL before EHLO, RCPT, EHLO, AUTH, MAIL, NOOP, QUIT); a stratum in which the handshake after the 220 fails and the connection goes on in plaintext (no TLS state for the backend, STARTTLS still offered); client half: real client created by NewClientStartTLS, DialStartTLS (dial hook) or the package-level SendMail (dial hook) against a stub server with behaviours {honest, STARTTLS not advertised, 454, 220 then garbage, 220 then cut, 220 with an injected reply in the same segment, ... in a later segment} and different capability lists before and after TLS. All products are swept systematically; distinct by the stratum tuple.",
 		Gen:      genC10,
 		Check:    checkC10,
 		Classify: classifyC10,
@@ -466,7 +505,7 @@ func init() {
 		Real:        []string{"smtp.Server.Serve/handleConn, handleStartTLS, handleGreet", "smtp.Client: NewClientStartTLS, DialStartTLS, SendMail, startTLS/setConn, hello, Mail", "crypto/tls client and server", "net/textproto"},
 		Stub:        []string{"net.Listener (SimListener)", "net.Conn (SimConn, with a raw tap below TLS)", "Backend/AuthSession (SimBackend)", "hostile SMTP server (stub) for the client half", "dialing (VerifDial hook, build tag verif)", "clock (synctest)"},
 		Assumptions: []string{"after a failed handshake nothing is judged except C08's rules", "package-level SendMail verifies certificates with the default configuration, so against the simulated self-signed peer only its failure modes are reachable"},
-		Required:    []string{"client_tls_session_established", "in_tls_ehlo_reply_without_capabilities", "injected_plaintext_later_segment_breaks_handshake", "injected_plaintext_same_segment_then_tls_ok", "server_tls_session_established", "stub_honest", "stub_454", "stub_starttls-not-advertised", "stub_220-then-garbage", "stub_220-then-cut", "stub_220+injected-reply-same-segment", "stub_220+injected-reply-later-segment"},
+		Required:    []string{"client_tls_session_established", "in_tls_ehlo_reply_without_capabilities", "injected_plaintext_later_segment_breaks_handshake", "injected_plaintext_same_segment_then_tls_ok", "server_tls_session_established", "stub_honest", "stub_454", "stub_starttls-not-advertised", "stub_220-then-garbage", "stub_220-then-cut", "stub_220+injected-reply-same-segment", "stub_220+injected-reply-later-segment", "handshake_fails_connection_goes_on_in_plaintext"},
 		QuickRuns:   12000, ThoroughRuns: 600000,
 	})
 }
